@@ -130,6 +130,23 @@ pub fn check_extraction<L: SimLang, N: Analysis<L>>(s: &mut Sess<L, N>, kind: Si
             }
             invs.push(AppliedId::new(id, m));
         }
+        if cls_slots.len() >= 2 {
+            // an invocation that permutes the class's own slot names (rotation, or a swap)
+            let k = cls_slots.len();
+            let mut m = SlotMap::new();
+            if rng.chance(1, 2) {
+                for i in 0..k {
+                    m.insert(cls_slots[i], cls_slots[(i + 1) % k]);
+                }
+            } else {
+                for i in 0..k {
+                    m.insert(cls_slots[i], cls_slots[i]);
+                }
+                m.insert(cls_slots[0], cls_slots[1]);
+                m.insert(cls_slots[1], cls_slots[0]);
+            }
+            invs.push(AppliedId::new(id, m));
+        }
         let finite = oracle.get(&id).map(|c| *c < u64::MAX).unwrap_or(false);
         if !finite {
             // the class contains no finite term: out of the property's scope
